@@ -20,10 +20,41 @@ def _order(fmt):
     return "little" if fmt[0] == "<" else "big"
 
 
+class StructObj:
+    """struct.Struct(fmt): a precompiled format is the same conversion"""
+
+    def __init__(self, fmt):
+        self.format = fmt
+        self.size = _struct.calcsize(fmt)
+        self._real = _struct.Struct(fmt)
+
+    def pack(self, *vals):
+        return StructShim.pack(self.format, *vals)
+
+    def unpack(self, data):
+        return StructShim.unpack(self.format, data)
+
+    def unpack_from(self, data, offset=0):
+        if isinstance(data, (SymBytes, ArrayShim)):
+            return StructShim.unpack(self.format, data[offset:offset + self.size])
+        return self._real.unpack_from(data, offset)
+
+    def __getattr__(self, name):
+        return getattr(self.__dict__["_real"], name)
+
+
 class StructShim:
     error = _struct.error
-    Struct = _struct.Struct
+    Struct = StructObj
     calcsize = staticmethod(_struct.calcsize)
+    pack_into = staticmethod(_struct.pack_into)
+    iter_unpack = staticmethod(_struct.iter_unpack)
+
+    @staticmethod
+    def unpack_from(fmt, data, offset=0):
+        if isinstance(data, (SymBytes, ArrayShim)):
+            return StructShim.unpack(fmt, data[offset:offset + _struct.calcsize(fmt)])
+        return _struct.unpack_from(fmt, data, offset)
 
     @staticmethod
     def pack(fmt, *vals):
